@@ -19,46 +19,62 @@ pub mod io {
     }
     pub type Result<T> = core::result::Result<T, Error>;
     pub enum SeekFrom { Start(u64), End(i64), Current(i64) }
+    pub use super::{Read, Write, Seek};
 }
 
 pub struct LittleEndian;
 
 // ---- little-endian encodings: defined, with proved inverses (bit_vector)
+#[verifier::opaque]
 pub open spec fn le16(v: u16) -> Seq<u8> { seq![(v & 0xff) as u8, ((v >> 8) & 0xff) as u8] }
+#[verifier::opaque]
 pub open spec fn le32(v: u32) -> Seq<u8> {
     seq![(v & 0xff) as u8, ((v >> 8) & 0xff) as u8, ((v >> 16) & 0xff) as u8, ((v >> 24) & 0xff) as u8]
 }
+#[verifier::opaque]
 pub open spec fn le64(v: u64) -> Seq<u8> {
     seq![(v & 0xff) as u8, ((v >> 8) & 0xff) as u8, ((v >> 16) & 0xff) as u8, ((v >> 24) & 0xff) as u8,
          ((v >> 32) & 0xff) as u8, ((v >> 40) & 0xff) as u8, ((v >> 48) & 0xff) as u8, ((v >> 56) & 0xff) as u8]
 }
+#[verifier::opaque]
 pub open spec fn de16(s: Seq<u8>) -> u16 { (s[0] as u16) | ((s[1] as u16) << 8) }
+#[verifier::opaque]
 pub open spec fn de32(s: Seq<u8>) -> u32 {
     (s[0] as u32) | ((s[1] as u32) << 8) | ((s[2] as u32) << 16) | ((s[3] as u32) << 24)
 }
+#[verifier::opaque]
 pub open spec fn de64(s: Seq<u8>) -> u64 {
     (s[0] as u64) | ((s[1] as u64) << 8) | ((s[2] as u64) << 16) | ((s[3] as u64) << 24)
     | ((s[4] as u64) << 32) | ((s[5] as u64) << 40) | ((s[6] as u64) << 48) | ((s[7] as u64) << 56)
 }
 pub proof fn lemma_le16_inv(v: u16) ensures de16(le16(v)) == v, le16(v).len() == 2 {
+    reveal(le16); reveal(de16);
     assert(((v & 0xff) as u8 as u16) | ((((v >> 8) & 0xff) as u8 as u16) << 8) == v) by(bit_vector);
 }
 pub proof fn lemma_le32_inv(v: u32) ensures de32(le32(v)) == v, le32(v).len() == 4 {
+    reveal(le32); reveal(de32);
     assert(((v & 0xff) as u8 as u32) | ((((v >> 8) & 0xff) as u8 as u32) << 8)
         | ((((v >> 16) & 0xff) as u8 as u32) << 16) | ((((v >> 24) & 0xff) as u8 as u32) << 24) == v) by(bit_vector);
 }
 pub proof fn lemma_le64_inv(v: u64) ensures de64(le64(v)) == v, le64(v).len() == 8 {
+    reveal(le64); reveal(de64);
     assert(((v & 0xff) as u8 as u64) | ((((v >> 8) & 0xff) as u8 as u64) << 8)
         | ((((v >> 16) & 0xff) as u8 as u64) << 16) | ((((v >> 24) & 0xff) as u8 as u64) << 24)
         | ((((v >> 32) & 0xff) as u8 as u64) << 32) | ((((v >> 40) & 0xff) as u8 as u64) << 40)
         | ((((v >> 48) & 0xff) as u8 as u64) << 48) | ((((v >> 56) & 0xff) as u8 as u64) << 56) == v) by(bit_vector);
 }
 
+pub broadcast proof fn lemma_le16_len(v: u16) ensures (#[trigger] le16(v)).len() == 2 { reveal(le16); }
+pub broadcast proof fn lemma_le32_len(v: u32) ensures (#[trigger] le32(v)).len() == 4 { reveal(le32); }
+pub broadcast proof fn lemma_le64_len(v: u64) ensures (#[trigger] le64(v)).len() == 8 { reveal(le64); }
+pub broadcast group group_le_len { lemma_le16_len, lemma_le32_len, lemma_le64_len }
+
 // bytes [p, p+n) of d
 pub open spec fn at(d: Seq<u8>, p: int, n: int) -> Seq<u8> { d.subrange(p, p + n) }
 pub open spec fn inb(d: Seq<u8>, p: int, n: int) -> bool { 0 <= p && 0 <= n && p + n <= d.len() }
 
 // overwrite/extend b at position p with w (a gap is zero filled, as for files and Cursor<Vec>)
+#[verifier::opaque]
 pub open spec fn put(b: Seq<u8>, p: int, w: Seq<u8>) -> Seq<u8> {
     Seq::new(if b.len() > p + w.len() { b.len() } else { (p + w.len()) as nat }, |i: int|
         if p <= i < p + w.len() { w[i - p] } else if i < b.len() { b[i] } else { 0u8 })
